@@ -254,7 +254,10 @@ def exact_or_saturated(chk, rule, inst, D, eng, finals, spec_of, what="", bad_ar
         for reg, cons in D.regions(st, spec):
             n += 1
             rl = (D.region_label(st, region_atoms(st), cons) if region_atoms else "")
-            vtag = (";via:" + "+".join(vias)) if vias else ""
+            vtag = ""
+            if vias:
+                # the path runs through a helper arm that is itself a (known) defect: key by that root cause
+                rl, vtag = "", "via:" + "+".join(vias)
             if reg == "fits":
                 ok = D.implies_eq(st, D.total(v), spec, cons)
                 chk.ob(rule, inst, "exact[%s%s]" % (rl, vtag), ok, "linear form equals exact result",
